@@ -32,6 +32,27 @@ def corpus_table(name, rng):
     return table
 
 
+LINK_ATOMS = [("P", (0, 0, 0)), ("O5'", (1500, 500, 0)), ("C5'", (2500, 1500, 300)), ("C4'", (3800, 1200, 1000)), ("C3'", (5000, 800, 200)),
+              ("O4'", (3600, 2600, 1500)), ("C1'", (4500, 3500, 1000))]
+
+
+def link_table(rng):
+    """one strand whose consecutive O3'(i)-P(i+1) distances straddle the 2.4 A connectivity threshold"""
+    table, serial = [], 1
+    n = rng.randint(3, 7)
+    num = rng.choice([1, -3, 98])
+    for i in range(n):
+        base = rng.choice("ACGU")
+        d = rng.choice([1500, 1600, 1900, 1950, 1970, 2000, 2200, 2350, 2390, 2399, 2401, 2410, 2450, 2600, 3000])
+        atoms = list(LINK_ATOMS) + ([("N9", (5000, 4800, 1400)), ("C4", (6200, 5200, 1000))] if base in "AG" else [("N1", (5000, 4800, 1400)), ("C2", (6200, 5200, 1000))])
+        atoms.append(("O3'", (14000 - d, 0, 0)))
+        for nm, (x, y, z) in atoms:
+            table.append({"record_type": "ATOM", "name": nm, "altLoc": "", "resName": base, "chainID": "A", "resSeq": num + i, "iCode": "", "element": genatoms.element_of(nm),
+                          "charge": "", "occ100": 100, "het": False, "model": 1, "serial": serial, "x1000": 14000 * i + x, "y1000": y, "z1000": z, "b100": 1000})
+            serial += 1
+    return table
+
+
 def v1_residues(path):
     from rnapolis.parser import read_3d_structure
     with open(path) as f:
@@ -58,7 +79,7 @@ def run(ctx):
     rng = ctx.rng
     d = os.path.join(BUILD, "c15")
     os.makedirs(d, exist_ok=True)
-    ctx.coverage["rule"] = ("single-model tables without alternate locations: generated (random identities incl. insertion codes, negative numbers, hetero groups) and derived "
+    ctx.coverage["rule"] = ("single-model tables without alternate locations: generated (random identities incl. insertion codes, negative numbers, hetero groups) strands whose O3'-P distances straddle 2.4 A, and derived "
                             "from single-conformer corpus structures (order-preservingly renumbered), each serialised to PDB and to mmCIF by an independent emitter and read by "
                             "both reader generations. Non-trivial = >= 2 residues; distinct by table text.")
     tables = []
@@ -77,6 +98,8 @@ def run(ctx):
             r["b100"] = 1000
             tt.append(r)
         tables.append(("generated", tt))
+    for _ in range(12 if ctx.quick else 120):
+        tables.append(("links", link_table(rng)))
     for name in ["1DFU_1_M-N.cif", "6INQ.cif", "4WTI_1_T-P.cif", "1HMH_1_E.cif"] + ([] if ctx.quick else ["1E7K_1_C.cif", "184D.cif"]):
         tables.append((name, corpus_table(name, rng)))
     for kind, table in tables:
@@ -96,7 +119,7 @@ def run(ctx):
                 ok = False
                 continue
             results[fmt] = (s1, r1, s2, r2, text)
-            ctx.count((kind, fmt, text), len(r1) >= 2, kind if kind == "generated" else "corpus")
+            ctx.count((kind, fmt, text), len(r1) >= 2, kind if kind in ("generated", "links") else "corpus")
             if sorted(r1, key=repr) != sorted(r2, key=repr):
                 a, b = sorted(r1, key=repr), sorted(r2, key=repr)
                 diff = next(((x, y) for x, y in zip(a, b) if x != y), (len(a), len(b)))
@@ -115,6 +138,8 @@ def run(ctx):
                 ka, kb = (a.chain, a.number, a.icode), (b.chain, b.number, b.icode)
                 if ka in v2 and kb in v2:
                     c1, c2 = bool(a.is_connected(b)), bool(v2[ka].is_connected(v2[kb]))
+                    ctx.coverage["links_compared"] = ctx.coverage.get("links_compared", 0) + 1
+                    ctx.coverage["links_connected"] = ctx.coverage.get("links_connected", 0) + int(c1)
                     o3, p = a.find_atom("O3'"), b.find_atom("P")
                     if o3 is not None and p is not None:
                         dist = math.dist((o3.x, o3.y, o3.z), (p.x, p.y, p.z))
@@ -133,6 +158,7 @@ def run(ctx):
                 k = (r.chain, r.number, r.icode)
                 c = chi2.get(k)
                 if c is not None and not (isinstance(c, float) and math.isnan(c)) and not math.isnan(r.chi):
+                    ctx.coverage["chi_compared"] = ctx.coverage.get("chi_compared", 0) + 1
                     if abs(abs(float(c)) - abs(r.chi)) > 1e-6:
                         ctx.violation("glycosidic torsion magnitudes from the two readers differ", {"kind": kind, "residue": r.full_name, "v1": r.chi, "v2": float(c)})
         if len(ctx.coverage["samples"]) < 2:
